@@ -9,7 +9,7 @@ KeyNo(k) == IF k = K1 THEN 1 ELSE IF k = K2 THEN 2 ELSE 3
 Ops(h, rec) == [i \in 1..Len(h) |->
    IF h[i].op = "flush" THEN [op |-> "flush"]
    ELSE IF h[i].op = "prigc" THEN [op |-> "prigc", lowUse |-> h[i].lowUse, deadline |-> h[i].deadline]
-   ELSE IF h[i].op = "idxgc" THEN [op |-> "idxgc", scanFree |-> h[i].scanFree, deadline |-> 0]
+   ELSE IF h[i].op = "idxgc" THEN [op |-> "idxgc", scanFree |-> h[i].scanFree, deadline |-> h[i].deadline]
    ELSE IF h[i].op = "rem" THEN [op |-> "rem", k |-> KeyNo(h[i].k)]
    ELSE IF h[i].op = "reopen" THEN [op |-> "reopen", snap |-> IF h[i].how = "snapshot" THEN "keep" ELSE "drop"]
    ELSE IF h[i].op = "crash" THEN [op |-> "crash", np |-> h[i].np, ni |-> h[i].ni, fl |-> h[i].fl,
